@@ -52,7 +52,7 @@ PROPS = {
         "assumptions": COMMON_ASSUME,
     },
     "C01": {
-        "lean_modules": ["InTotoModel.Props.C01", "InTotoModel.Props.NonVacuity"],
+        "lean_modules": ["InTotoModel.Props.C01", "InTotoModel.Props.NonVacuity", "InTotoModel.Props.Spec"],
         "claim": "verify = ok implies: keys non-empty, pairwise distinct intrinsic ids (no alias), the block is a layout, every supplied key has a valid signature attributed to its own id over exactly the block's content, and that content is what all later stages enforce; with the four failure clauses as corollaries. Lean theorems for every environment, iteration order and fuel; tied to in_toto_verify by fault-injected end-to-end scenarios with all key schemes.",
         "level_note": "Trusted: Lean kernel; env.valid abstracts ring + signed-text derivation (C11); 'a post-signing change invalidates the signature' composes with C05 and the unforgeability of the schemes.",
         "technique": "Lean 4 theorems about an executable model + model/implementation correspondence check (differential run with property oracle)",
@@ -68,7 +68,7 @@ PROPS = {
         ]
 },
     "C02": {
-        "lean_modules": ["InTotoModel.Props.C02", "InTotoModel.Props.NonVacuity"],
+        "lean_modules": ["InTotoModel.Props.C02", "InTotoModel.Props.NonVacuity", "InTotoModel.Props.Spec"],
         "claim": "verify = ok implies that the step names are pairwise distinct (a second step of a name is an error since fix c94147d; the model's stage 4 mirrors it, so the main theorem needs no hypothesis on names any more) and, for every step, max(1,threshold) distinct key ids that are in the step's pubkeys, in the key table, and have a file <step>.<prefix8>.link carrying a signature of that id valid under that key; evidence of unlisted keys and files filed under a prefix none of their signatures carries never count. Lean theorems (induction over the directory listing and the link tables); end-to-end fault injection on the real code.",
         "level_note": "Trusted: Lean kernel; hypotheses stated in the theorem: distinct step names, key table files keys under their own id (C12), glob-safe step names.",
         "technique": "Lean 4 theorems about an executable model + model/implementation correspondence check (differential run with property oracle)",
@@ -150,7 +150,7 @@ PROPS = {
         "assumptions": COMMON_ASSUME + ["'the same however obtained' is read as 'a function of the four components': raw-bytes constructors use an absent hash-algorithm list, SPKI/PKCS#8 ones [sha256, sha512], by design of the library"],
     },
     "C13": {
-        "lean_modules": ["InTotoModel.Props.C13", "InTotoModel.Props.NonVacuity"],
+        "lean_modules": ["InTotoModel.Props.C13", "InTotoModel.Props.NonVacuity", "InTotoModel.Props.Spec"],
         "claim": "c13_full: for every environment, layout block, caller keys, link directory, name and fuel, and any two families of hash-map iteration orders (each only assumed to return a rearrangement), the model's verification succeeds under one iff it succeeds under the other, with the same summary link; failure is always an error, never a panic, and is order independent too. Proved through all twelve stages (Lemmas/Determinism.lean): loops as order-free filters / all-or-nothing maps, tables of two runs related by 'same keys, values up to permutation', every consumer reads tables by lookup only. The three order-sensitive decisions (signature counting with early exit, agreement with an arbitrary reference link, representative = smallest key id) are separate theorems. Non-vacuity: a concrete scenario (threshold-2 step, delegated sub-layout, MATCH rule, inspection) is kernel-checked to verify under two different orders. The driver evaluates every generated scenario under two opposite orders and the real run is repeated with fresh hash seeds.",
         "level_note": "Trusted: Lean kernel; the model's tie to verifylib.rs is the differential run. c13_complete_result_is_determined: under the iteration orders of the code (steps in layout order, evidence in key-id order - fix 0f00e75 - all hash-map iterations arbitrary) the complete result is determined: verdict, error stage, summary and the sequence of inspection commands, in failing runs too. What a command does to the working directory is the operating system's; that it is a function of the directory it finds is assumed, not modelled.",
         "technique": "Lean 4 theorems about an executable model + model/implementation correspondence check (differential run with property oracle)",
